@@ -106,7 +106,7 @@ fn alphabet() -> Vec<AAttr> {
 const ENV_IMPORT: &str = "import { x, f1, o1, p1, h1, ev1, dyn1, C1, C2, y, xs1, NS, FragmentList } from \"env\";\nlet m1 = 1;\n";
 /// component hosts: bound, member (also with an HTML tag name / fragment-like name as the last
 /// property), unbound, names that start like `Fragment`
-const COMP_TAGS: &[&str] = &["C1", "C2", "NS.C", "NS.button", "NS.a.div", "Foo", "FragmentList", "NS.FragmentGroup"];
+const COMP_TAGS: &[&str] = &["C1", "C2", "NS.C", "NS.button", "NS.a.div", "Foo", "FragmentList", "NS.FragmentGroup", "KeepAlive", "NS.KeepAlive"];
 const ELEM_TAGS: &[&str] = &["div", "span", "rect", "section"];
 
 fn env_json() -> Value {
@@ -130,6 +130,7 @@ fn env_json() -> Value {
                     ("C", v_comp("NS.C")),
                     ("button", v_comp("NS.button")),
                     ("FragmentGroup", v_comp("NS.FragmentGroup")),
+                    ("KeepAlive", v_comp("NS.KeepAlive")),
                     ("a", v_obj(vec![("div", v_comp("NS.a.div"))])),
                 ]),
             ),
@@ -487,7 +488,7 @@ impl Property for C13 {
             }
             let ton = c.bool();
             let mp = c.chance(3, 4);
-            let tag_ix = c.pick(8);
+            let tag_ix = c.pick(10);
             let mut case = attr_case(&picked, comp, ton, mp, tag_ix);
             case.label("random-attrs");
             return case;
